@@ -379,6 +379,12 @@ example : badStyle ⟨40, t "style", pat "width: 1emheight: 2px"⟩ = true := by
 example : (checkMessage none (.message ⟨0, t "m", some (pat "v"), [⟨8, t "style", pat "width: 20em"⟩]⟩)
       ⟨0, t "m", some (pat "v"), [⟨8, t "style", pat "height: 1emwidth: 2em"⟩]⟩).map (fun m => (m.sev, m.pos)) =
     [(sevError, 0)] := by decide +kernel
+/-- trailing white space after the last declaration is not a missing semicolon (/repo 7c75698);
+    white space between two declarations without a semicolon still is -/
+example : cssBad [119, 105, 100, 116, 104, 58, 49, 101, 109, 32] = false ∧           -- "width:1em "
+    cssBad [119, 105, 100, 116, 104, 58, 49, 101, 109, 10] = false ∧                 -- "width:1em\n"
+    cssBad (t "width:1em;height:2px" ++ [9]) = false ∧
+    (parseCssSpec (t "width: 1em height: 2px")).2 = some [CssErr.missingSemicolon 10] := by decide +kernel
 /-- the last declaration needs no semicolon, with or without one the spec is fine -/
 example : cssBad (t "width: 1em") = false ∧ cssBad (t "width: 1em;") = false ∧ cssBad (t "width: 1em; height: 2px") = false := by
   decide +kernel
